@@ -152,6 +152,19 @@ def main(P, argv):
     # 2. harness
     hb = V.build_harness(crate=getattr(P, "harness_crate", "harness"), binname=getattr(P, "harness_binname", "vh"))
     log("[%s] harness build: ok=%s (%.1fs)" % (prop, hb["ok"], hb["wall_s"]))
+    # further engines may live in another harness crate
+    bins = {getattr(P, "harness_crate", "harness"): hb.get("bin")}
+    for Q in also:
+        cr = getattr(Q, "harness_crate", "harness")
+        if cr not in bins and hb["ok"]:
+            hq = V.build_harness(crate=cr, binname=getattr(Q, "harness_binname", "vh"))
+            log("[%s] harness build (%s): ok=%s (%.1fs)" % (prop, cr, hq["ok"], hq["wall_s"]))
+            bins[cr] = hq.get("bin")
+            if not hq["ok"]:
+                hb = hq
+
+    def bin_of(Q):
+        return bins[getattr(Q, "harness_crate", "harness")]
 
     known = V.known_findings(prop)
     listed = {k["class"] for k in known}
@@ -184,7 +197,7 @@ def main(P, argv):
             Q = next((q for q in also if q.engine == eng), None)
             if Q is not None:
                 qc = dict(rp["case"], id=0)
-                qo = evaluate(Q, hb["bin"], [qc])
+                qo = evaluate(Q, bin_of(Q), [qc])
                 k, s_, cls = worst(qo.rows.get(0, []), set())
                 log("[%s] replay on engine %s: %s rows=%s" % (prop, eng, k, qo.rows.get(0)))
                 if k in ("viol", "corr"):
@@ -210,14 +223,14 @@ def main(P, argv):
             witness_ids[i] = c["_witness"]
 
     # 4. explore (the property's own engine, then any further engines it also uses)
-    o = evaluate(P, hb["bin"], cases)
+    o = evaluate(P, bin_of(P), cases)
     parts = [(P, cases, o)]
     if not a.replay:
         for Q in also:
             qcases = Q.gen(rng, tier)
             for i, c in enumerate(qcases):
                 c["id"] = i
-            parts.append((Q, qcases, evaluate(Q, hb["bin"], qcases)))
+            parts.append((Q, qcases, evaluate(Q, bin_of(Q), qcases)))
     kinds = {}
     viol, corr, known_seen = [], [], {}
     for Q, qcases, qo in parts:
@@ -259,10 +272,10 @@ def main(P, argv):
 
     def report_violation(c, s, cls, Q=P):
         r0 = o.results.get(c["id"]) if Q is P else None
-        small = shrink(Q, hb["bin"], c, "viol", s, listed if Q is P else set(), deadline=deadline,
+        small = shrink(Q, bin_of(Q), c, "viol", s, listed if Q is P else set(), deadline=deadline,
                        orig_panicked=(not isinstance(r0, dict)) or "harness_panic" in r0)
         small["id"] = 0
-        o2 = evaluate(Q, hb["bin"], [small])
+        o2 = evaluate(Q, bin_of(Q), [small])
         path = V.write_replay(prop, "violation", dict(
             property=prop, kind="failing-input", engine=Q.engine, sub_check=Q.sub_names.get(s, s),
             case=small, observed=o2.results.get(0), rows=o2.rows.get(0), original_case=c,
@@ -293,7 +306,7 @@ def main(P, argv):
             for i, c in enumerate(pool):
                 c["id"] = i
             extra_n = len(pool)
-            o3 = evaluate(P, hb["bin"], pool, tag="search")
+            o3 = evaluate(P, bin_of(P), pool, tag="search")
             for c in pool:
                 k, s, cls = worst(o3.rows.get(c["id"], []), listed)
                 if k == "viol":
